@@ -8,6 +8,7 @@ ASSUME ndJsonSerialize("scen_Multi.ndjson", SetToSeq(Multi))
 ASSUME ndJsonSerialize("scen_F4.ndjson", SetToSeq(F4))
 ASSUME ndJsonSerialize("scen_F5.ndjson", SetToSeq(F5))
 ASSUME ndJsonSerialize("scen_F6.ndjson", SetToSeq(F6))
+ASSUME ndJsonSerialize("scen_F8.ndjson", SetToSeq(F8))
 ASSUME ndJsonSerialize("scen_Probe.ndjson", <<Probe>>)
 ASSUME ndJsonSerialize("scen_Wait.ndjson", <<WaitScen>>)
 ASSUME PrintT(<<"SCENARIOS", Cardinality(F1), Cardinality(F2), Cardinality(F3), Cardinality(Multi), Cardinality(F4), Cardinality(F5), Cardinality(F6)>>)
